@@ -1,13 +1,19 @@
-// Package c12 is the correspondence harness for property C12 (placeholder).
+// Package c12 is the correspondence harness for property C12: both generated wire codecs
+// of pkg/api (protobuf-go's reflection codec and the MarshalVT/UnmarshalVT/SizeVT methods
+// of api_vtproto.pb.go) against each other and against the Lean reference codec.
 package c12
 
 import (
-	"errors"
+	"path/filepath"
 
 	"verifh/internal/hx"
 	"verifh/internal/lineio"
 )
 
 func Run(o *hx.Opts, w *lineio.Writer) error {
-	return errors.New("C12 harness not implemented")
+	if o.Tier == "gen" {
+		// regeneration step (checks/C12.json pre_lean_cmds): o.Scratch = <out>/scratch
+		return runGen(filepath.Dir(o.Scratch))
+	}
+	return runCases(o, w)
 }
